@@ -12,6 +12,9 @@
 (*   server    : [abs |-> FALSE, base |-> <<"b">>, slash |-> BOOLEAN]                    *)
 (*             | [abs |-> TRUE, scheme, host |-> <<part>>, port |-> <<>> | <<part>>,     *)
 (*                base, slash]                                                           *)
+(*               (, sch |-> [v |-> "scheme", enum |-> <<"https", "http">>]  -- the scheme *)
+(*                 is the server variable {scheme} with these allowed values; the field  *)
+(*                 scheme is its default)                                                *)
 (*               (, bv |-> <<[i |-> 1, v |-> "ver"]>>  -- base-path variables: segment i *)
 (*                 of the base path is the server variable {ver}; base[i] is its default *)
 (*                 -- so base is always the base path under the defaults)                *)
@@ -94,8 +97,11 @@ BaseVarAt(s, i) == \E k \in 1..Len(BaseVars(s)) : BaseVars(s)[k].i = i
 BaseVarName(s, i) == BaseVars(s)[CHOOSE k \in 1..Len(BaseVars(s)) : BaseVars(s)[k].i = i].v
 BaseStrs(s) == [i \in 1..Len(s.base) |-> IF BaseVarAt(s, i) THEN "{" \o BaseVarName(s, i) \o "}" ELSE s.base[i]]
 
+HasSchemeVar(s) == "sch" \in DOMAIN s
+SchemeSet(s) == IF HasSchemeVar(s) THEN {s.sch.enum[i] : i \in 1..Len(s.sch.enum)} \cup {s.scheme} ELSE {s.scheme}
+
 ServerURL(s) ==
-   (IF s.abs THEN s.scheme \o "://" \o JoinDot(Strs(s.host)) \o
+   (IF s.abs THEN (IF HasSchemeVar(s) THEN "{" \o s.sch.v \o "}" ELSE s.scheme) \o "://" \o JoinDot(Strs(s.host)) \o
                   (IF Len(s.port) = 0 THEN "" ELSE ":" \o PartStr(s.port[1]))
     ELSE "")
    \o PathStr(BaseStrs(s)) \o (IF s.slash THEN "/" ELSE "")
@@ -135,18 +141,24 @@ Flat(doc) == [doc EXCEPT !.templates = [t \in 1..Len(doc.templates) |->
 (*  - a port other than the default of a server port variable (gorillamux documents      *)
 (*    that only the default matches, legacy treats the variable as a wildcard);          *)
 (*  - an explicit port against a server URL without a port.                              *)
+(*  - a scheme outside the enum of a scheme variable (the enum is the declared set of     *)
+(*    values; gorillamux matches exactly these, legacy treats the variable as a wildcard; *)
+(*    whether an undeclared value still is "under a declared server" is not said).        *)
 (* A host variable (no enum in this universe) matches any non-empty label, a base-path    *)
 (* variable any non-empty segment.                                                       *)
-SrvMatch(s, u) ==
-   IF ~s.abs THEN (IF u.abs /\ ~IsNone(s) THEN "open" ELSE "yes")
-   ELSE IF ~u.abs THEN "no"
-   ELSE IF u.scheme # s.scheme \/ Len(u.host) # Len(s.host) THEN "no"
+SrvMatchRest(s, u) ==
+   IF Len(u.host) # Len(s.host) THEN "no"
    ELSE IF \E i \in 1..Len(s.host) : \/ IsLit(s.host[i]) /\ s.host[i].l # u.host[i]
                                      \/ IsVar(s.host[i]) /\ u.host[i] = "" THEN "no"
    ELSE IF Len(s.port) = 0 THEN (IF Len(u.port) = 0 THEN "yes" ELSE "open")
    ELSE IF Len(u.port) = 0 THEN "no"
    ELSE IF IsLit(s.port[1]) THEN (IF u.port[1] = s.port[1].l THEN "yes" ELSE "no")
    ELSE IF u.port[1] = s.port[1].d THEN "yes" ELSE "open"
+SrvMatch(s, u) ==
+   IF ~s.abs THEN (IF u.abs /\ ~IsNone(s) THEN "open" ELSE "yes")
+   ELSE IF ~u.abs THEN "no"
+   ELSE IF u.scheme \notin SchemeSet(s) THEN (IF HasSchemeVar(s) /\ SrvMatchRest(s, u) # "no" THEN "open" ELSE "no")
+   ELSE SrvMatchRest(s, u)
 
 HasBase(s, u) == /\ Len(u.path) >= Len(s.base)
                  /\ \A i \in 1..Len(s.base) : IF BaseVarAt(s, i) THEN u.path[i] # "" ELSE u.path[i] = s.base[i]
@@ -301,7 +313,7 @@ TemplVars(t) == UNION {SegVars(t.segs[i]) : i \in 1..Len(t.segs)}
 HostVarNames(s) == IF s.abs THEN {s.host[i].v : i \in {j \in 1..Len(s.host) : IsVar(s.host[j])}} ELSE {}
 PortVarNames(s) == IF s.abs THEN {s.port[i].v : i \in {j \in 1..Len(s.port) : IsVar(s.port[j])}} ELSE {}
 BaseVarNames(s) == {BaseVars(s)[k].v : k \in 1..Len(BaseVars(s))}
-ServerVarNames(s) == HostVarNames(s) \cup PortVarNames(s) \cup BaseVarNames(s)
+ServerVarNames(s) == HostVarNames(s) \cup PortVarNames(s) \cup BaseVarNames(s) \cup (IF HasSchemeVar(s) THEN {s.sch.v} ELSE {})
 (* some template is offered under a server one of whose variables has the name of one of its own *)
 SharedNames(doc) == UNION {UNION {ServerVarNames(TServers(doc, t)[i]) \cap TemplVars(doc.templates[t]) :
                                     i \in 1..Len(TServers(doc, t))} : t \in 1..Len(doc.templates)}
@@ -374,7 +386,7 @@ MuxOrder(doc) == SetToSortSeq(1..Len(doc.templates), LAMBDA a, b : MuxBefore(doc
 MuxRoute(s, t, req) ==
    LET u == req.u
        pathOK == HasBase(s, u) /\ Matches(t, Residual(s, u))
-       schemeOK == ~s.abs \/ (IF u.abs THEN u.scheme ELSE "http") = s.scheme
+       schemeOK == ~s.abs \/ (IF u.abs THEN u.scheme ELSE "http") \in SchemeSet(s)      \* (a scheme variable: one mux Schemes matcher with all its values)
        hostOK == ~s.abs \/
                  /\ u.abs /\ Len(u.host) = Len(s.host)
                  /\ \A i \in 1..Len(s.host) : IF IsLit(s.host[i]) THEN u.host[i] = s.host[i].l ELSE u.host[i] # ""
@@ -444,7 +456,7 @@ Std9 == {"GET", "POST", "PUT", "DELETE", "PATCH", "HEAD", "OPTIONS", "TRACE", "C
 
 LegacySrvMatch(s, u) ==
    IF ~s.abs THEN ~u.abs /\ HasBase(s, u)
-   ELSE /\ u.abs /\ u.scheme = s.scheme /\ Len(u.host) = Len(s.host)
+   ELSE /\ u.abs /\ (HasSchemeVar(s) \/ u.scheme = s.scheme) /\ Len(u.host) = Len(s.host)
         /\ \A i \in 1..Len(s.host) : IsLit(s.host[i]) => u.host[i] = s.host[i].l
         /\ IF Len(s.port) = 0 THEN Len(u.port) = 0
            ELSE Len(u.port) = 1 /\ (IsLit(s.port[1]) => u.port[1] = s.port[1].l)
